@@ -346,6 +346,8 @@ def check(case, ctx):
 
 def units(tier):
     us = []
+    BOUNDS["seed_accepting_functions"] = len(seed_functions())
+    BOUNDS["uncovered"] = [n for n in seed_functions() if n not in registered()]
     for name in registered():
         us.append(Unit(name, check, strategy=(lambda nm=name: cases(nm)), examples=(120, 1600), shards=(1, 4)))
     return us
